@@ -17,13 +17,6 @@ COQ_TARGETS = ['isa/IsaCheck.vo', 'props/C03.vo']
 KNOWN_OPS = {
     ('cdna3', 'SOP1', 48): 's_abs_i32 sets SCC = (S0 < 0) instead of (D != 0); the pinned test TestSOP1Opcode48SABSI32 asserts this',
 }
-# opcodes that are right on 32-bit operand values but use all 64 bits of the value
-# ReadOperand returns for a negative inline constant (uint64(int64(-k)))
-KNOWN_WIDE = {
-    ('gcn3', 'SOP2', 5), ('gcn3', 'SOP2', 12), ('gcn3', 'SOP2', 16), ('gcn3', 'SOP2', 30),
-    ('cdna3', 'SOP2', 7), ('cdna3', 'SOP2', 9), ('cdna3', 'SOP2', 12), ('cdna3', 'SOP2', 37), ('cdna3', 'SOP2', 44),
-}
-WIDE_TEXT = 'a 32-bit scalar operation uses all 64 bits ReadOperand returns for an inline constant -1..-16'
 UNSUP_TEXT = 'vccz/execz as source operand panic ("Register type not supported")'
 
 SOP2_64 = {11, 13, 15, 17, 19, 21, 23, 25, 27, 29, 31, 33}
@@ -44,8 +37,6 @@ def classify(c):
         return None
     if key in KNOWN_OPS:
         return key, KNOWN_OPS[key]
-    if not is64(c) and key in KNOWN_WIDE and any(193 <= s <= 208 for s in srcs):
-        return ('wide',) + key, WIDE_TEXT
     return None
 
 
